@@ -103,6 +103,7 @@ func Load(cfg LoadConfig, overlay map[string][]byte) (*Loaded, error) {
 		Stubs:          BaseStubs(),
 		Natives:        map[string]interface{}{},
 		Whitelist:      map[string]bool{},
+		WhitelistPkgs:  map[string]bool{"path": true, "strings": true, "internal/stringslite": true, "unicode/utf8": true},
 		MaxSteps:       4_000_000,
 		MaxForks:       600,
 		MaxBlockVisits: 5000,
@@ -110,5 +111,6 @@ func Load(cfg LoadConfig, overlay map[string][]byte) (*Loaded, error) {
 		TimeoutMs:      10000,
 	}
 	EnvStubs(e.Stubs)
+	StageStubs(e.Stubs)
 	return &Loaded{Engine: e, Pkgs: pkgs, SSA: m}, nil
 }
